@@ -80,10 +80,27 @@ def run(res):
                 rep += 1
                 res.violation("allocation failure (request %d) in backend %s width %d did not abort cleanly: %s; program %r" % (mta[3], mta[1], mta[2], r[:100], mta[0][:100]),
                               {"case": plines[idx], "implementation": r[:500]})
+    # the kernel refuses every direct memory request of the run (address-space limit 0) while the
+    # allocator still works from a static arena: the JIT's executable mapping fails
+    nlines = ["runnoas|%s|%d|%d|%s|%s" % (b, w, lvl, P.hexs(src), env) for (src, b, w) in cfgs for lvl in ((2,) if res.tier == "quick" else (0, 2, 3))]
+    nout = C.run_lines(hv, nlines)
+    stats["no_address_space_runs"] = len(nlines)
+    stats["no_address_space_aborted"] = 0
+    for l, r in zip(nlines, nout):
+        stats["fault_points"] += 1
+        if r.startswith("signal:6") or r.startswith("panic:"):
+            stats["aborted"] += 1
+            stats["no_address_space_aborted"] += 1
+        elif not (r.startswith("ok ") or r.startswith("timeout")):
+            stats["bad"] += 1
+            if rep < 8:
+                rep += 1
+                res.violation("a run whose direct memory requests are refused by the kernel did not abort cleanly: %s; case %s" % (r[:100], l[:80]),
+                              {"case": l, "implementation": r[:500]})
     res.coverage.update({
         "evaluations": stats["fault_points"],
         "distinct_nontrivial": stats["aborted"],
-        "rule": "for each random tape history (generator of C09) the number k of allocator requests (alloc, alloc_zeroed and realloc all count) is measured and the failing request is enumerated over 0..k-1 (every growth, both directions); additionally 6 roaming programs x 4 backends x 2 widths, the number of allocator requests of the fault-free execution is measured and the failing request enumerated (all of them up to the tier's cap, beyond that the first half of the cap plus random ones); a child process whose global allocator returns null for that request must end by SIGABRT/panic; SIGSEGV or normal continuation is a violation; non-trivial = runs that actually reached the failing request and aborted",
+        "rule": "for each random tape history (generator of C09) the number k of allocator requests (alloc, alloc_zeroed and realloc all count) is measured and the failing request is enumerated over 0..k-1 (every growth, both directions); additionally 6 roaming programs x 4 backends x 2 widths, the number of allocator requests of the fault-free execution is measured and the failing request enumerated (all of them up to the tier's cap, beyond that the first half of the cap plus random ones); a child process whose global allocator returns null for that request must end by SIGABRT/panic; SIGSEGV or normal continuation is a violation; the same programs x backends are also run in a child whose address-space limit is lowered to 0 after the executor was built, with the allocator serving from a static arena, so that only direct kernel requests fail (the JIT's executable mapping): the child must finish normally, panic or abort; non-trivial = runs that actually reached the failing request and aborted",
         "samples": lines[:: max(1, len(lines) // 6)][:6],
         "stats": stats, "theorems": ["C17_alloc_fail_safe", "C17_alloc_fail_stops"],
         "obligations": res.coverage.get("obligations", 0), "discharged": res.coverage.get("discharged", 0),
